@@ -16,9 +16,9 @@ EXTRA = {
     "C02": TRUTHY + " The smoothers never store into their input series (R-READONLY).",
     "C03": TRUTHY, "C04": TRUTHY, "C05": TRUTHY + " The GCV kernels never store into their input series (R-READONLY).",
     "C06": " Every solver weight vanishes outside the validity mask (R-MASK: the sanitised placeholder does not shift with the series); ws2d is one straight-line algorithm; "
-           "the asymmetric fixed-lambda smoother re-weights until the curve itself stops changing (IRLS descriptor shared with C03).",
+           "the asymmetric fixed-lambda smoother re-weights until the curve itself stops changing (IRLS descriptor shared with C03); the 3-d V-curve driver takes the lag-1 correlation from the raw series with its nodata marker.",
     "C07": TRUTHY + " The 90%-zeros test compares the ratio of counts itself with 0.9 (no float arithmetic on the compared side).",
-    "C08": TRUTHY + " The 90%-zeros test compares the ratio itself with 0.9." + " Every pixel/group iteration of the SPI drivers leaves a defined value in the output (nodata-prefilled or must-write per iteration); inside the cell loop arrays are addressed at the current cell only (no neighbouring cell enters an index).",
+    "C08": TRUTHY + " The 90%-zeros test compares the ratio itself with 0.9." + " Every pixel/group iteration of the SPI drivers leaves a defined value in the output (nodata-prefilled or must-write per iteration); inside the cell loop arrays are addressed at the current cell only (no neighbouring cell enters an index); only cells of the index buffer that differ from nodata are scaled.",
     "C09": TRUTHY + " Explicit casts of kernel arguments equal the element type the kernel declares.",
     "C10": TRUTHY + " The kernel without nodata handling is selected exactly when the nodata attribute is None.",
     "C12": " No gufunc signature declares a contiguous layout (R-LAYOUT: strided views are passed to the inner loops).",
